@@ -652,8 +652,26 @@ def do_replay(prop, path):
     """Re-run a stored counterexample natively against /repo's current tree."""
     d = json.load(open(path))
     if d.get("harness") is None and d.get("status") == "violation":
+        # a MIR-engine counterexample: re-derive the obligation from the CURRENT tree and re-run its native replay recipe
         import mirsmt
-        return mirsmt.replay(d)
+        mirsmt.replay(d)
+        want = {f["obligation"] for f in d.get("failures", [])}
+        ensure_vendor()
+        slot = Slot()
+        try:
+            prepare(slot, [])
+            cur = mirsmt.run_for_property(prop, slot.src, "quick") or {}
+        finally:
+            slot.release()
+        again = [f for f in cur.get("failures", []) or [] if f["obligation"] in want and f.get("reproduced")]
+        for f in again:
+            print("  still refuted and natively reproduced on the current tree:", f["obligation"])
+            print("   ", json.dumps(f.get("replay") or f.get("native_replay") or {})[:600])
+        if again:
+            print(f"VIOLATION property={prop} replay={path}")
+            return 1
+        print("the stored counterexample's obligation(s) hold on the current tree (or no longer reproduce natively)")
+        return 0
     reg = load_registry()
     h = reg.get(d["harness"])
     if not h:
